@@ -551,7 +551,8 @@ impl FallbackHelper for i128 {
 
     #[inline]
     fn shift_lo_up(self) -> i128 {
-        debug_assert!(self >> 64 == 0);
+        // the carry of a signed column is -1, 0 or 1
+        debug_assert!(self >> 64 == 0 || self >> 64 == -1);
         self << 64
     }
 
